@@ -1,2 +1,4 @@
 def run(ctx):
-    return ""
+    from . import plan_proofs
+
+    return plan_proofs.run(ctx)
